@@ -38,6 +38,8 @@ def make_receiver(spec):
     nr, nt, nz = spec.get("nr", 5), spec.get("nt", 6), spec.get("nz", 4)
     for p, tubes in enumerate(spec["panels"]):
         pan = receiver.Panel("disconnect")
+        if "panel_geom" in spec:                 # per-panel tube gauge (outer radius, thickness)
+            R, T = spec["panel_geom"][p]
         for k, mult in enumerate(tubes):
             tube = receiver.Tube(R, T, H, nr, nt, nz, T0=spec.get("T0", 800.0), multiplier=mult)
             if spec["ndim"] == 1:
@@ -50,7 +52,8 @@ def make_receiver(spec):
             for j in range(nt):
                 q[:, j, :] = base * (max(np.cos(2 * np.pi * j / nt), 0.0) if spec["ndim"] > 1 else 1.0)
             q *= np.array(spec.get("qt", [1.0] * len(times)))[:, None, None]
-            tube.set_bc(receiver.HeatFluxBC(R, H, nt, nz, times, q), "outer")
+            if [p, k] not in spec.get("shaded", []):   # a shaded tube has no outer condition at all (insulated wall)
+                tube.set_bc(receiver.HeatFluxBC(R, H, nt, nz, times, q), "outer")
             pan.add_tube(tube)
         r.add_panel(pan)
     for k, path in enumerate(spec["paths"]):
@@ -133,6 +136,8 @@ def predicates(spec, r, fl):
     panels = list(r.panels.values())
     dr = spec.get("T", 1.0) / (spec.get("nr", 5) - 1)
     ri = spec.get("R", 10.0) - spec.get("T", 1.0)
+    if "panel_geom" in spec:      # the loosest of the per-panel discretisation bounds
+        dr, ri = max(((T_ / (spec.get("nr", 5) - 1), R_ - T_) for R_, T_ in spec["panel_geom"]), key=lambda x: x[0] / x[1])
     for tube in r.tubes:
         if np.max(np.abs(tube.results["temperature"][0] - T0)) > 0:
             bad.append("a tube does not start from its initial temperature")
@@ -176,7 +181,9 @@ def predicates(spec, r, fl):
                     mdot_t = float(fl.rho(Tm)) * u * np.pi * (t.r - t.t) ** 2
                     gain += t.multiplier * mdot_t * float(fl.cp(Tm)) * (tout - tin)
                     dz, dth = t.h / t.nz, 2 * np.pi / t.nt
-                    if t.abstraction == "3D":
+                    if t.outer_bc is None:
+                        pass                      # shaded tube: nothing enters its outer surface
+                    elif t.abstraction == "3D":
                         heat += t.multiplier * t.r * float(np.sum(t.outer_bc.data[i])) * dz * dth
                     elif t.abstraction == "2D":
                         heat += t.multiplier * t.r * sum(float(t.outer_bc.flux(times[i], 2 * np.pi * j / t.nt, t.plane)[0]) for j in range(t.nt)) * dth * t.h
@@ -426,6 +433,14 @@ def run(ctx):
     specs += [
         {"name": "1D steady plateau, inlet steps at t=5 and t=7", "ndim": 1, "times": [0.0, 1.0, 2.0, 3.0, 4.0, 5.0, 6.0, 7.0, 8.0],
          "panels": [[2], [1]], "paths": [[0, 1]], "inlet": [800.0, 800.0, 800.0, 800.0, 800.0, 820.0, 820.0, 790.0, 790.0]},
+    ]
+    # panels of different tube gauge on one path (each wall convects with the film coefficient of ITS bore), and a
+    # shaded tube without any outer condition listed before an otherwise identical lit tube
+    specs += [
+        {"name": "1D two gauges on one path, steady", "ndim": 1, "times": [0.0, 1.0], "panels": [[2], [3]], "paths": [[0, 1]],
+         "panel_geom": [[10.0, 1.0], [6.0, 1.0]], "H": 8000.0, "nr": 9},
+        {"name": "1D shaded tube listed before a lit twin, steady", "ndim": 1, "times": [0.0, 1.0], "panels": [[1, 1], [2]],
+         "paths": [[0, 1]], "shaded": [[0, 0]], "identical": True, "H": 8000.0},
     ]
     if not ctx.quick():
         specs += [
